@@ -116,6 +116,9 @@ impl<S: Stream + Unpin> Stream for MergeUnbounded<S> {
             let poll = Pin::new(&mut groups[*poll_next]).poll_next(cx);
             match poll {
                 Poll::Ready(Some(x)) => {
+                    // take turns: the next call starts with the following group, so that a
+                    // group with an always-ready source cannot starve the other groups
+                    *poll_next += 1;
                     return Poll::Ready(Some(x));
                 }
                 Poll::Ready(None) => {
